@@ -8,6 +8,12 @@ COMMON_TRUSTED = [
 ]
 
 CONF = {
+    "C17": {
+        "n": {"quick": 640, "thorough": 8000},
+        "shard": 320,
+        "trusted_base": ["gopkg.in/yaml.v3 / encoding/json / magiconair properties: the manifest model starts after yaml.Unmarshal and ends before the YAML encode; round trips of embedded documents are checked relative to the bare codec", "encoding/base64 is re-modelled (b64_enc/b64_dec) and compared"],
+        "assumptions": ["text items that bare yaml.v3 (as configured by utils.NewYamlEncoder) does not round-trip on its own are a known finding (known_findings.txt)"],
+    },
     "C19": {
         "n": {"quick": 600, "thorough": 9000},
         "shard": 300,
